@@ -115,3 +115,29 @@ Example C10_examples_round2 :
   /\ lr_check [(1%N, PAlt (PSeq (PRule 1%N) (PSeq (PTok 7%N) (PRule 2%N))) (PRule 2%N)); (2%N, PTok 8%N)] [] [1%N] [(2%N, 0%N)] = true
   /\ lr_check [(1%N, PAlt (PSeq (PRule 1%N) (PSeq (PTok 7%N) (PRule 2%N))) (PRule 2%N)); (2%N, PTok 8%N)] [] [] [(1%N, 1%N); (2%N, 0%N)] = false.
 Proof. vm_compute. repeat split; reflexivity. Qed.
+
+(** Round 3: error-reporting actions.  The locator of [invalid_arguments] alternative 0 is total on EVERY shape of its sub-match
+    (positional list / keyword list, either possibly empty, not both), names an argument of the call, and the variant that forgets
+    the empty-keyword shape (seed C10-4) fails exactly on that shape. *)
+From Scenic Require Import C10.ErrorActions.
+
+Theorem C10_invalid_arguments_locator_total :
+  forall (node : Type) (pos kw : list node), pos ++ kw <> nil -> exists n, locate node pos kw = Some n /\ In n (pos ++ kw).
+Proof. exact locate_total. Qed.
+Print Assumptions C10_invalid_arguments_locator_total.
+
+Theorem C10_invalid_arguments_locator_is_last :
+  forall (node : Type) (pos kw : list node) n, locate node pos kw = Some n ->
+    (kw <> nil -> last_opt node kw = Some n) /\ (kw = nil -> last_opt node pos = Some n).
+Proof. exact locate_is_last. Qed.
+Print Assumptions C10_invalid_arguments_locator_is_last.
+
+Theorem C10_locator_forgetting_a_shape_refuted :
+  (forall (node : Type) (pos kw : list node), locate_kw_only node pos kw = None <-> kw = nil) /\
+  (exists (pos kw : list nat), pos ++ kw <> nil /\ locate_kw_only nat pos kw = None).
+Proof. split; [exact locate_kw_only_fails_iff | exact locate_kw_only_refuted]. Qed.
+Print Assumptions C10_locator_forgetting_a_shape_refuted.
+
+Example C10_locator_examples :
+  locate nat (1 :: 2 :: nil)%nat nil = Some 2%nat /\ locate nat (1 :: nil)%nat (7 :: 8 :: nil)%nat = Some 8%nat /\ locate nat nil nil = None.
+Proof. repeat split. Qed.
